@@ -229,7 +229,7 @@ CFG = {
     "prop_file": "Properties/C06.v",
     "run_modules": ["Verif.C06.Run", "Verif.C06.RunI", "Verif.C06.RunX"],
     "coq_dirs": ["C06"],
-    "n": {"quick": int(os.environ.get("C06_N", "4000")), "thorough": 300000},
+    "n": {"quick": int(os.environ.get("C06_N", "4000")), "thorough": 150000},
     "shard": 500,
     "level": "proof",
     "stages": [correspondence_c06],
@@ -259,6 +259,12 @@ CFG = {
     "assumptions": [
         "maphash is modelled by its input bytes (equal input => equal hash; different input => different hash is only probable)",
         "x/text case mapping, normalize, regexp-driven replace/split and encoding/json's decoder are not transcribed",
+        ("toUpperCase/toLowerCase: the model's case map is the ASCII one. The harness applies goja's toUpperCase/toLowerCase "
+         "only when the operand's final UTF-16 content (surrogates paired up, whatever pieces they came from) contains no "
+         "non-ASCII code point that takes part in Unicode case mapping according to Go's unicode tables (ToLower/ToUpper/"
+         "ToTitle differ from identity, or category Ll/Lu/Lt, or U+0345; this covers the astral cased scripts Deseret, Osage, "
+         "Vithkuqi, Old Hungarian, Warang Citi, Medefaidrin, Adlam); otherwise the node is evaluated with the ASCII map in the "
+         "harness and the case is tagged case-mapping-outside-model: non-ASCII case mapping itself is NOT checked by C06"),
         "the implementation is tied to the model only on the generated expression trees (correspondence), not by proof",
     ],
     "manifest": {
@@ -277,7 +283,7 @@ CFG = {
                  "same reference value are indistinguishable through every modelled observable (equal_trees_indistinguishable). "
                  "18 theorems, no axioms. One statement is still refuted by the faithful model and kept as such: Export of an "
                  "importedString with invalid UTF-8 returns the raw bytes (export_eq_refuted, open finding F19, API behaviour). "
-                 "The model is tied to /repo on every run: 4000 (quick) / 300000 (thorough) pairs of expression trees are "
+                 "The model is tied to /repo on every run: 4000 (quick) / 150000 (thorough) pairs of expression trees are "
                  "evaluated in goja and by the model (vm_compute); length, every charCodeAt, Export bytes, interchangeability "
                  "with a literal, and per pair ===, ==, Object.is, <, >, Map key, object key and hash are compared with the "
                  "unit-list oracle S; disagreements are classified against the transcription I."),
